@@ -20,6 +20,8 @@ import (
 //	    svc/ {sentinels}               parent of the store roots: what a one-level escape hits
 //	      upload/  cache/              the store roots (the only places the server may touch)
 //	      nginx/data localdb/data      sibling decoys
+//	      upload.bak/ upload2/         siblings whose names merely START WITH a store root's base name
+//	      cache.bak/ cache-old/        (backups, rotated directories): sentinels, and in *.bak a victim/ entry
 //
 // Four directory levels below the box root keep every escape of up to four levels
 // inside the watched tree.
@@ -35,6 +37,13 @@ type box struct {
 // sidecars: an entry name that resolves to a directory outside the root makes the
 // store operate on exactly these names in that directory.
 var sentinelNames = []string{"data", "_persist", "_torrentmeta", "_last_access_time"}
+
+// prefixSiblings are directories next to the store roots ("upload", "cache") whose
+// names start with a store root's base name; siblingEntry is an entry directory
+// inside the *.bak ones. The name grammar (names_test.go) aims at them.
+var prefixSiblings = []string{"upload.bak", "upload2", "cache.bak", "cache-old"}
+
+const siblingEntry = "victim"
 
 // sentinelDigestHex returns a stable 64-hex string used as the content of "data"
 // sentinels: it parses as a digest, so a tag read that escapes would be *served*.
@@ -56,13 +65,24 @@ func newBox() (*box, error) {
 	b.svc = filepath.Join(root, "l1", "l2", "svc")
 	b.upload = filepath.Join(b.svc, "upload")
 	b.cache = filepath.Join(b.svc, "cache")
-	for _, d := range []string{b.svc, filepath.Join(b.svc, "nginx"), filepath.Join(b.svc, "localdb")} {
+	levels := []string{root, filepath.Join(root, "l1"), filepath.Join(root, "l1", "l2"), b.svc,
+		filepath.Join(b.svc, "nginx"), filepath.Join(b.svc, "localdb")}
+	// Siblings of the store roots whose names have a store root's base name as a proper
+	// string prefix: "inside the directory" is a statement about path components, and
+	// these are the directories that a textual prefix comparison takes for the inside.
+	// A sibling holds sentinels directly (name "../upload.bak") and, for the *.bak ones,
+	// in an entry directory below it (name "../upload.bak/victim").
+	for _, s := range prefixSiblings {
+		levels = append(levels, filepath.Join(b.svc, s))
+		if strings.HasSuffix(s, ".bak") {
+			levels = append(levels, filepath.Join(b.svc, s, siblingEntry))
+		}
+	}
+	for _, d := range levels {
 		if err := os.MkdirAll(d, 0775); err != nil {
 			return nil, err
 		}
 	}
-	levels := []string{root, filepath.Join(root, "l1"), filepath.Join(root, "l1", "l2"), b.svc,
-		filepath.Join(b.svc, "nginx"), filepath.Join(b.svc, "localdb")}
 	for li, dir := range levels {
 		for _, n := range sentinelNames {
 			var content []byte
